@@ -8,6 +8,7 @@ import (
 	"net"
 	"regexp"
 	"sort"
+	"strconv"
 	"strings"
 
 	"golang.org/x/tools/go/ssa"
@@ -316,7 +317,18 @@ func checkC19(c *Ctx) {
 					}
 				}
 			})
-			pos := edgesEstablishing(f, func(cnd string, pol bool) bool { return pol && cnd == "(0 < "+sp+")" })
+			pos := edgesEstablishing(f, func(cnd string, pol bool) bool {
+				if pol && cnd == "(0 < "+sp+")" {
+					return true
+				}
+				// !(size < K) with K >= 1
+				if l, rr, ok := splitLt(cnd); ok && !pol && l == sp {
+					if k, err := strconv.ParseInt(rr, 10, 64); err == nil && k >= 1 {
+						return true
+					}
+				}
+				return false
+			})
 			bad, w := reach(f, nil, isInstr(ci.(ssa.Instruction)), anyOf(fixes), pos)
 			r.Check(!bad, "C19.3", "newLRUCache: the LRU is created with a positive size on every path", ci.Pos(), fnName(f), "size > 0 tested, or replaced by a positive default",
 				"the LRU constructor can be called with a size <= 0 (a negative capacity in an accepted configuration): it fails, newLRUCache returns a nil *lruCache, Init stores it in the interface-typed cache field where every `!= nil` guard passes, and the statistics printer / every lookup panics on the nil receiver")
